@@ -394,9 +394,9 @@ def make_primitives(S: Scheduler):
             f = GatedFuture()
             S.log(S.me() or self.t, "submit", (self.name, getattr(fn, "__name__", str(fn))))
             self.q.append((f, fn, a, k))
-            # the task is now visible to the worker: the submitting thread may be pre-empted right here, before its next statement
-            # (seeded change C05-f moved a statement of _start() behind the submit of the first tick: a lost wake-up)
-            S.point("submit")
+            # (no scheduling point here: rex submits under the wrapper's lock, and nothing yields while a lock is held.  A pre-emption "right
+            # after the submit" is the same as one right before the submitter's next access to shared state - which is a point of its own,
+            # provided the deque it touches is known to be shared: see GatedDeque._shared_sites, added after seeded change C05-f)
             return f
 
         def shutdown(self, wait=True):
